@@ -226,7 +226,18 @@ impl<'a, 'tcx> Cx<'a, 'tcx> {
                     Some(GlobalAlloc::Function { instance }) => {
                         let _ = write!(o, ",\"fnptr\":{}", js(&path_str(self.tcx, instance.def_id())));
                     }
+                    Some(GlobalAlloc::Memory(alloc)) => {
+                        self.bytes_of(&mut o, ty, alloc);
+                    }
                     _ => {}
+                }
+            }
+            Const::Unevaluated(uv, _) if uv.promoted.is_some() && is_byte_array_ref(ty) => {
+                // format_args! templates are promoted `&[u8; N]` constants
+                if let Ok(ConstValue::Scalar(Scalar::Ptr(ptr, _))) = c.eval(self.tcx, env, rustc_span::DUMMY_SP) {
+                    if let Some(GlobalAlloc::Memory(alloc)) = self.tcx.try_get_global_alloc(ptr.provenance.alloc_id()) {
+                        self.bytes_of(&mut o, ty, alloc);
+                    }
                 }
             }
             Const::Unevaluated(uv, _) if !ty.is_fn() && ty.is_ref() => {
@@ -248,6 +259,18 @@ impl<'a, 'tcx> Cx<'a, 'tcx> {
             Const::Unevaluated(uv, _) => {
                 // named constant (e.g. a thread_local! LocalKey): record which one
                 let _ = write!(o, ",\"cdef\":{}", js(&path_str(self.tcx, uv.def)));
+            }
+            Const::Ty(_, ct) => {
+                // pattern constants (`match s { "contains" => .. }`) are type-level constants (valtrees)
+                if let Some(v) = ct.try_to_value() {
+                    if let Some(bytes) = v.try_to_raw_bytes(self.tcx) {
+                        if let Ok(st) = std::str::from_utf8(bytes) {
+                            if st.len() <= 400 && matches!(ty.kind(), ty::Ref(_, inner, _) if inner.is_str()) {
+                                let _ = write!(o, ",\"s\":{}", js(st));
+                            }
+                        }
+                    }
+                }
             }
             Const::Val(cv @ ConstValue::Slice { .. }, _) => {
                 if let Some(bytes) = cv.try_get_slice_bytes_for_diagnostics(self.tcx) {
@@ -272,6 +295,23 @@ impl<'a, 'tcx> Cx<'a, 'tcx> {
         }
         o.push('}');
         o
+    }
+
+    fn bytes_of(&self, o: &mut String, ty: Ty<'tcx>, alloc: rustc_middle::mir::interpret::ConstAllocation<'tcx>) {
+        if !is_byte_array_ref(ty) {
+            return;
+        }
+        let a = alloc.inner();
+        let n = a.len();
+        if n > 600 {
+            return;
+        }
+        let bytes = a.inspect_with_uninit_and_ptr_outside_interpreter(0..n);
+        let mut hex = String::with_capacity(n * 2);
+        for b in bytes {
+            let _ = write!(hex, "{:02x}", b);
+        }
+        let _ = write!(o, ",\"bytes\":{}", js(&hex));
     }
 
     fn resolve(&self, d: DefId, args: ty::GenericArgsRef<'tcx>) -> Option<String> {
@@ -692,6 +732,15 @@ impl rustc_driver::Callbacks for Cb {
         std::fs::rename(&tmp, &path).expect("rename facts");
         rustc_driver::Compilation::Continue
     }
+}
+
+fn is_byte_array_ref(ty: Ty<'_>) -> bool {
+    if let ty::Ref(_, inner, _) = ty.kind() {
+        if let ty::Array(el, _) = inner.kind() {
+            return matches!(el.kind(), ty::Uint(ty::UintTy::U8));
+        }
+    }
+    false
 }
 
 fn main() {
